@@ -54,7 +54,7 @@ m = {"version": 1,
                   "kind_free_text": "Rust harness (path dependency on /repo, rebuilt by cargo whenever a source file changed): workload generators, reference model, metamorphic/state/trace monitors, 16 sharded worker processes, replay files; sanitizer stages via scripts/san_stage.sh (valgrind, Miri, ASan/LSan)"}],
      "checks": checks,
      "not_applicable": [{"property_id": p["id"], "reason": "not yet registered"} for p in props if p["id"] not in C],
-     "notes": "Known findings: /verif/known_findings.txt (all entries are `fixed:`; none open). Seeded changes used for calibration: /verif/seeded/*, /verif/calibration/mutants.py; results in DESIGN.md section 12."}
+     "notes": "Known findings: /verif/known_findings.txt (12 `fixed:` entries; one open finding - stack use proportional to graph depth - keyed on exact probes for C01, C18, C19). Seeded changes used for calibration: /verif/seeded/*, /verif/calibration/mutants.py; results in DESIGN.md section 12."}
 if not m["not_applicable"]: del m["not_applicable"]
 json.dump(m, open(os.path.join(ROOT, "MANIFEST.json"), "w"), indent=1)
 print("wrote MANIFEST.json with", len(checks), "checks")
